@@ -213,6 +213,14 @@ def r07c(repo: Repo, chk: Check, R="R07.c"):
                 if isinstance(sub, ast.Call) and isinstance(sub.func, ast.Name) and sub.func.id == "any" and "Return" in norm(sub):
                     ov_base[norm(sub)] = S(True)
             tail = [n for n in names if "tail" in n]
+            # the function is emitted as a region of its own (the case in which a terminator is needed at all): it is called more than once / cannot be inlined
+            for a in ast.walk(c):
+                if isinstance(a, ast.Attribute) and a.attr == "is_read":
+                    ov_base[norm(a)] = S(2)
+                if isinstance(a, ast.Attribute) and a.attr == "can_inline":
+                    ov_base[norm(a)] = S(False)
+                if isinstance(a, ast.Attribute) and a.attr == "inline_functions":
+                    ov_base[norm(a)] = S(True)
             verdicts = {}
             for tv in (False, True):
                 ov = dict(ov_base)
@@ -221,6 +229,10 @@ def r07c(repo: Repo, chk: Check, R="R07.c"):
                 fe = FnEval(repo, g, cf, ov)
                 v = fe.eval(c, tid)
                 verdicts[tv] = None if v is TOP or not v else all(bool(x) for x in v)
+            if None in verdicts.values():
+                chk.unresolved(R, "generate_code:compile_function:the end label is terminated also under tail-call optimisation",
+                               f"the condition {norm(c)} of the final terminator could not be evaluated for a function with an early return", wherec)
+                continue
             chk.judge(R, "generate_code:compile_function:the end label is terminated also under tail-call optimisation", verdicts.get(True) is True and verdicts.get(False) is True,
                       f"with an early return present, the terminator after the end label is emitted: without tail call {verdicts.get(False)}, with tail call {verdicts.get(True)} "
                       f"(condition {norm(c)}): an early 'return' jumps to the end label and falls into the next function", {"condition": norm(c), "verdicts": {str(k): v for k, v in verdicts.items()}}, wherec)
